@@ -56,3 +56,35 @@ Qed.
 Theorem pq_tree_algo_gate elems d alts p :
   dt_soc_toc d = false -> is_single_peaked_pq_tree_algo elems d alts p = Err TypeErr.
 Proof. intros H. unfold is_single_peaked_pq_tree_algo. now rewrite H. Qed.
+
+(* ---- completeness (Proofs/PQTreeComplete.v): the mirrored algorithm answers True whenever some axis passes the axis
+   test; no hypothesis on the visiting order ---- *)
+From PrefVerif Require Import Proofs.PQTreeComplete.
+
+Theorem pq_isC1P_opt_complete elems rows nc :
+  c1p_decide rows nc = true -> isC1P_model (pq_reorder_opt elems) rows nc = true.
+Proof.
+  intros Hd. unfold isC1P_model, pq_reorder_opt. pose proof (dedup_sets_family rows nc) as Hfam.
+  apply c1p_decide_correct in Hd. destruct (family_arrangement rows nc _ Hfam Hd) as (res & Hres).
+  destruct (pq_reorder_complete elems (dedup_sets (map (col_set rows) (seq 0 nc))) (ex_intro _ res Hres)) as (r & Hr).
+  now rewrite Hr.
+Qed.
+
+Theorem pq_tree_sp_complete elems d (alts : list N) (p : list order) :
+  NoDup alts -> Forall (complete_on alts) p -> dt_soc_toc d = true ->
+  (exists axis, Permutation alts axis /\ sp_axis_profile p axis = true) ->
+  is_single_peaked_pq_tree_algo elems d alts p = Ok true.
+Proof.
+  intros Hnd Hc Hd Hax. unfold is_single_peaked_pq_tree_algo. rewrite Hd. f_equal.
+  apply pq_isC1P_opt_complete. rewrite <- sp_c1p_decide_eq. now apply (sp_matrix_correct alts p Hnd Hc).
+Qed.
+
+(* the mirrored algorithm decides weak-order single-peakedness *)
+Theorem pq_tree_sp_correct elems d (alts : list N) (p : list order) :
+  NoDup alts -> Forall (complete_on alts) p -> dt_soc_toc d = true ->
+  incl (concat (dedup_sets (map (col_set (sp_matrix alts p)) (seq 0 (length alts))))) elems ->
+  (is_single_peaked_pq_tree_algo elems d alts p = Ok true <->
+   exists axis, Permutation alts axis /\ sp_axis_profile p axis = true).
+Proof.
+  intros Hnd Hc Hd Hcov. split; [now apply pq_tree_sp_sound|now apply pq_tree_sp_complete].
+Qed.
